@@ -160,6 +160,26 @@ pub trait Suite: RandomizedCiphersuite + Sized {
     ) -> Result<KeyPackage<Self>, Error<Self>> {
         fc::keys::repairable::repair_share_part3(sigmas, id, pkp)
     }
+    /// Taproot only: the crate's tweak entry points (None elsewhere)
+    fn w_sign_with_tweak(
+        _pkg: &SigningPackage<Self>,
+        _nonces: &SigningNonces<Self>,
+        _kp: &KeyPackage<Self>,
+        _root: Option<&[u8]>,
+    ) -> Option<Result<SignatureShare<Self>, Error<Self>>> {
+        None
+    }
+    fn w_aggregate_with_tweak(
+        _pkg: &SigningPackage<Self>,
+        _shares: &BTreeMap<Id<Self>, SignatureShare<Self>>,
+        _pkp: &PublicKeyPackage<Self>,
+        _root: Option<&[u8]>,
+    ) -> Option<Result<Signature<Self>, Error<Self>>> {
+        None
+    }
+    fn w_tweaked_pkp(_pkp: &PublicKeyPackage<Self>, _root: Option<&[u8]>) -> Option<PublicKeyPackage<Self>> {
+        None
+    }
     fn w_rr_sign(
         pkg: &SigningPackage<Self>,
         nonces: &SigningNonces<Self>,
@@ -185,6 +205,32 @@ pub trait Suite: RandomizedCiphersuite + Sized {
     ) -> Result<Signature<Self>, Error<Self>> {
         frost_rerandomized::aggregate_custom(pkg, shares, pkp, cd, params)
     }
+}
+
+macro_rules! tweak_wrappers {
+    ($krate:ident, true) => {
+        fn w_sign_with_tweak(
+            pkg: &SigningPackage<Self>,
+            nonces: &SigningNonces<Self>,
+            kp: &KeyPackage<Self>,
+            root: Option<&[u8]>,
+        ) -> Option<Result<SignatureShare<Self>, Error<Self>>> {
+            Some($krate::round2::sign_with_tweak(pkg, nonces, kp, root))
+        }
+        fn w_aggregate_with_tweak(
+            pkg: &SigningPackage<Self>,
+            shares: &BTreeMap<Id<Self>, SignatureShare<Self>>,
+            pkp: &PublicKeyPackage<Self>,
+            root: Option<&[u8]>,
+        ) -> Option<Result<Signature<Self>, Error<Self>>> {
+            Some($krate::aggregate_with_tweak(pkg, shares, pkp, root))
+        }
+        fn w_tweaked_pkp(pkp: &PublicKeyPackage<Self>, root: Option<&[u8]>) -> Option<PublicKeyPackage<Self>> {
+            use $krate::keys::Tweak;
+            Some(pkp.clone().tweak(root))
+        }
+    };
+    ($krate:ident, false) => {};
 }
 
 macro_rules! agg_custom {
@@ -290,6 +336,7 @@ macro_rules! impl_suite {
                 $krate::aggregate(pkg, shares, pkp)
             }
             agg_custom!($krate, $tr);
+            tweak_wrappers!($krate, $tr);
             rr_wrappers!($krate, $rr);
             fn w_part1(
                 id: Id<Self>,
